@@ -504,22 +504,101 @@ func main() {
 					args = append(args, "-racelog", rl)
 					env = append(os.Environ(), "GOMAXPROCS="+strconv.Itoa(gmp), "GORACE=log_path="+rl+" halt_on_error=0 exitcode=0 history_size=3")
 				}
-				cmd := exec.Command(bin, args...)
-				cmd.Env = env
-				var eb bytes.Buffer
-				cmd.Stderr = &eb
-				err := cmd.Run()
-				if ee, ok := err.(*exec.ExitError); ok {
-					exitCodes[i] = ee.ExitCode()
-				} else if err != nil {
-					exitCodes[i] = 2
+				if !j.lane.Race {
+					cmd := exec.Command(bin, args...)
+					cmd.Env = env
+					var eb bytes.Buffer
+					cmd.Stderr = &eb
+					err := cmd.Run()
+					if ee, ok := err.(*exec.ExitError); ok {
+						exitCodes[i] = ee.ExitCode()
+					} else if err != nil {
+						exitCodes[i] = 2
+					}
+					stderrs[i] = eb.String()
+					var r workerReport
+					if b, err := os.ReadFile(out); err == nil && json.Unmarshal(b, &r) == nil {
+						reports[i] = &r
+					}
+					return
 				}
-				stderrs[i] = eb.String()
-				var r workerReport
-				if b, err := os.ReadFile(out); err == nil && json.Unmarshal(b, &r) == nil {
-					r.RaceRep = raceReports(eb.String())
-					reports[i] = &r
+				// race lanes restart their worker process every few evaluations: data races on
+				// lazily initialised process-wide state only exist in the first runs of a process
+				const perProcess = 25
+				deadline := time.Now().Add(time.Duration(explore * float64(time.Second)))
+				merged := &workerReport{Prop: id, Worker: j.w, Variant: j.lane.Variant, RaceLane: true, Faults: map[string]int{}, Probes: map[string]int{}, SiteRuns: map[string]int{}}
+				sigSet := map[string]bool{}
+				for start := 0; time.Now().Before(deadline) && start < evals; start += perProcess {
+					a2 := append(append([]string{}, args...), "-start", strconv.Itoa(start))
+					for k := range a2 {
+						if a2[k] == "-evals" {
+							a2[k+1] = strconv.Itoa(perProcess)
+						}
+						if a2[k] == "-secs" {
+							a2[k+1] = fmt.Sprintf("%.1f", time.Until(deadline).Seconds())
+						}
+					}
+					os.Remove(out)
+					cmd := exec.Command(bin, a2...)
+					cmd.Env = env
+					var eb bytes.Buffer
+					cmd.Stderr = &eb
+					err := cmd.Run()
+					code := 0
+					if ee, ok := err.(*exec.ExitError); ok {
+						code = ee.ExitCode()
+					} else if err != nil {
+						code = 2
+					}
+					var r workerReport
+					b, rerr := os.ReadFile(out)
+					if rerr != nil || json.Unmarshal(b, &r) != nil {
+						exitCodes[i], stderrs[i] = code, eb.String()
+						if code == 0 {
+							exitCodes[i] = 2
+						}
+						return
+					}
+					merged.Evals += r.Evals
+					merged.Nontrivial += r.Nontrivial
+					merged.Runs += r.Runs
+					merged.Steps += r.Steps
+					merged.SimTimeNs += r.SimTimeNs
+					merged.WallS += r.WallS
+					merged.Gomaxprocs = r.Gomaxprocs
+					merged.Seed = r.Seed
+					for _, sg := range r.Sigs {
+						sigSet[sg] = true
+					}
+					for k, v := range r.Faults {
+						merged.Faults[k] += v
+					}
+					for k, v := range r.Probes {
+						merged.Probes[k] += v
+					}
+					for k, v := range r.SiteRuns {
+						merged.SiteRuns[k] += v
+					}
+					if len(merged.Samples) < 2 {
+						merged.Samples = append(merged.Samples, r.Samples...)
+					}
+					merged.Failures = append(merged.Failures, r.Failures...)
+					if len(r.Hang) > 0 && string(r.Hang) != "null" {
+						merged.Hang = r.Hang
+					}
+					merged.Probes["race_lane_processes"]++
+					if code != 0 && code != 4 {
+						exitCodes[i], stderrs[i] = code, eb.String()
+						break
+					}
+					if len(merged.Failures) >= 8 {
+						break
+					}
 				}
+				for sg := range sigSet {
+					merged.Sigs = append(merged.Sigs, sg)
+				}
+				reports[i] = merged
 			}(i, j)
 		}
 		wg.Wait()
